@@ -87,6 +87,17 @@ theorem toChannel_close_reached {α : Type} (cfg : Cfg) (s : St α) :
     obtain ⟨s', hs⟩ := Option.isSome_iff_exists.mp this
     exact ⟨s', hs, (stops_pos_after_teardown cfg s s' h hs).1⟩
 
+/-- the release survives a panicking upstream teardown (repo fix 694a874: `defer closeChan()` before
+    `subscriptions.Unsubscribe()`): once `Unsubscribe()` has passed its CAS the channel is closed
+    exactly once two steps later, for every configuration — with `Cfg.upPanic` the panic reaches the
+    caller of `Unsubscribe()` only after the close -/
+theorem toChannel_teardown_releases {α : Type} (cap : Nat) (hot panics : Bool) (raw : List (Notif α)) (sched : List Tid) :
+    let cfg : Cfg := { cap := cap, toChan := true, hot := hot, upPanic := panics }
+    let s := run cfg (init cfg raw) sched
+    s.tpc = .td1 → ∃ s1 s2, step cfg s .ctl = some s1 ∧ step cfg s1 .ctl = some s2 ∧ s2.tpc = .done ∧
+      s2.closed = true ∧ s2.closes = 1 ∧ (panics = true → hot = true → s.upOpen = true → s2.raised = true) :=
+  fun ht => teardown_releases (inv_run _ raw sched) ht
+
 /-- a send racing the close: the panic "send on closed channel" is raised inside the observer
     callback; `observerImpl.try*` turn it into exactly one `OnUnhandledError(ro.Observer: …)`, it
     never reaches the caller of Next/Error/Complete (the source, or the harness) -/
@@ -212,6 +223,7 @@ end Ro.C17
 #print axioms Ro.C17.toChannel_complete
 #print axioms Ro.C17.toChannel_close_once
 #print axioms Ro.C17.toChannel_close_reached
+#print axioms Ro.C17.toChannel_teardown_releases
 #print axioms Ro.C17.toChannel_send_on_closed
 #print axioms Ro.C17.observer_never_lets_a_panic_out
 #print axioms Ro.C17.toChannel_failed_sends
